@@ -192,8 +192,15 @@ class MonCache:
         mon.write_enter(key, me, "removes")
         try:
             s.yield_("inner.rmv")
+            plan = s.user.get("c19_rmv_fault", {}).pop(s.current.id, None)
+            if plan is not None and plan["fail"] == "before":
+                s.count("fault.inner_rmv_raise_before")
+                raise Inj(plan["id"], "rmv")
             self.base.rmv(key)
             mon.cached[key] = False
+            if plan is not None:
+                s.count("fault.inner_rmv_raise_after")
+                raise Inj(plan["id"], "rmv")
             s.yield_("inner.rmv.done")
         finally:
             mon.write_exit(key, me)
@@ -384,6 +391,9 @@ class C19:
                 if rng.random() < 0.2:
                     opid[0] += 1
                     ops.append({"op": "rmv", "id": opid[0], "key": key})
+                    if faulty and rng.random() < 0.2:
+                        # the inner cache's own rmv fails (the file cannot be unlinked: EACCES / EIO), before or after the entry is gone
+                        ops[-1]["fail"] = "before" if rng.random() < 0.5 else "after"
                 else:
                     ops.append(mk_get(key))
             callers.append(ops)
@@ -553,10 +563,16 @@ class C19:
             for op in ops:
                 if op["op"] == "rmv":
                     try:
+                        if op.get("fail"):
+                            sim.user.setdefault("c19_rmv_fault", {})[sim.current.id] = op
                         cc.rmv(op["key"])
                         records.append((phase, cidx, op["id"], "rmv", None, op["key"], None))
+                    except Inj as e:
+                        records.append((phase, cidx, op["id"], "inj", (e.opid, e.where), op["key"], None))
                     except Exception as e:
                         records.append((phase, cidx, op["id"], "exc", e, op["key"], None))
+                    finally:
+                        sim.user.get("c19_rmv_fault", {}).pop(sim.current.id, None)
                 else:
                     do_get(cc, op, phase, cidx)
 
